@@ -6,11 +6,11 @@ CONSTANTS
   Amts = {"0","1","2"}
   Ratios <- MC_Ratios
   InitBank = "3"
-  MaxLen = 4
-  Defects = {"dao_self_transfer"}
-  Foreign = {}
-  BankAmts = {}
-INVARIANT MInv_Compensated
-PROPERTY MStep_Compensated
+  MaxLen = 6
+  Defects = {}
+  Foreign = {"bank_send","bank_multisend"}
+  BankAmts = {"1","2"}
+INVARIANT MInv_P
+PROPERTY MStep_P
 VIEW View
 CHECK_DEADLOCK FALSE
